@@ -6,7 +6,7 @@
 (***************************************************************************)
 EXTENDS WakerTracker, Json
 
-CONSTANTS Depth, OwedVals
+CONSTANTS Depth, OwedVals, DrainedOK
 VARIABLE hist
 
 RInit == Init /\ hist = <<>>
@@ -25,10 +25,12 @@ RCall(drained, count) ==
                              owed |-> [f \in sent |-> owed'[f]],
                              waiting |-> Cardinality(waiting'), ebw |-> ebw'])
 
+\* DrainedOK = FALSE: the queue is never seen empty (producers never stop), every drain ends at
+\* the deadline
 RNext ==
     \/ RReq
-    \/ RCall(TRUE, 0)
-    \/ \E c \in Counts : RCall(TRUE, c) \/ (c % K = 0 /\ RCall(FALSE, c))
+    \/ DrainedOK /\ RCall(TRUE, 0)
+    \/ \E c \in Counts : (DrainedOK /\ RCall(TRUE, c)) \/ (c % K = 0 /\ RCall(FALSE, c))
 
 RSpec == RInit /\ [][RNext]_<<wvars, hist>>
 Bound == Len(hist) <= Depth
